@@ -97,7 +97,7 @@ func classifyC08(e *Env, op Op, cl map[string]bool) {
 // after release, never released while bound; after Stop nothing is bound.
 func RunC13(c SessCase) harn.Result {
 	e := NewEnv()
-	e.OpTimeout = 5 * time.Second
+	e.OpTimeout = 8 * time.Second
 	res := harn.Result{}
 	n := c.StopAt
 	if n > len(c.Ops) {
